@@ -35,8 +35,10 @@ def zone_name(tz: Any) -> str:
     return repr(tz)
 
 
-def run_paths(model, key: str, text) -> List[Tuple[Dict[str, Any], Tuple]]:
-    """All paths of evaluate_<key>(text): [(facts, outcome)]; facts: parsed/aware/overflow + component predicates asked."""
+def run_paths(model, key: str, text, pipeline: bool = False) -> List[Tuple[Dict[str, Any], Tuple]]:
+    """All paths of evaluate_<key>(text): [(facts, outcome)]; facts: parsed/aware/overflow + component predicates asked.
+    pipeline: the constraint is reached the regular way - the text sits in the context variable and
+    FcEvaluator.evaluate_single_format_constraint(key) looks the method up and post-processes its result."""
 
     def run(ch):
         h = Harness(model, ch)
@@ -117,12 +119,28 @@ def run_paths(model, key: str, text) -> List[Tuple[Dict[str, Any], Tuple]]:
         })
         ev = Obj(f"{STUB_MODULE}.StubFcEvaluator", {"_evaluation_methods": {}, "stub_methods": {}, "logger": Opaque("logger", kind="logging.Logger", truthy=True)})
         try:
-            res = it.call(it.getattr(ev, f"evaluate_{key}", None, None), [text], {}, None, None)
+            if pipeline:
+                import ast as _ast
+
+                from ..fdai import Frame
+
+                fmod = model.module("ahbicht.content_evaluation.fc_evaluators")
+                cv = it.eval(_ast.parse("text_to_be_evaluated_by_format_constraint", mode="eval").body, Frame(None, fmod, None, set()))
+                if not (isinstance(cv, Obj) and cv.cls == "contextvars.ContextVar"):
+                    raise Unsupported(f"text_to_be_evaluated_by_format_constraint is {cv!r}, not a ContextVar")
+                cv.fields["value"] = text
+                ev.fields["stub_methods"] = ev.fields["_evaluation_methods"] = {key: it.getattr(ev, f"evaluate_{key}", None, None)}
+                res = it.await_(it.call(it.getattr(ev, "evaluate_single_format_constraint", None, None), [key], {}, None, None), None, None)
+            else:
+                res = it.call(it.getattr(ev, f"evaluate_{key}", None, None), [text], {}, None, None)
         except PyRaise as err:
             return facts, ("raise", err.exc.cls)
         if not (isinstance(res, Obj) and res.cls.endswith("EvaluatedFormatConstraint")):
             return facts, ("value", repr(res))
-        return facts, ("ret", res.fields.get("format_constraint_fulfilled"), res.fields.get("error_message") is not None)
+        msg = res.fields.get("error_message")
+        if msg is not None and not isinstance(msg, (str, StrT)):
+            return facts, ("message-is-not-text", repr(msg))
+        return facts, ("ret", res.fields.get("format_constraint_fulfilled"), msg is not None)
 
     out = []
     for trace, (facts, outcome) in explore(run):
@@ -171,14 +189,19 @@ def check(ctx: Ctx) -> None:
                 ctx.ob("C20.raise", f"{key}:{text!r}", outcome == ("ret", False, True), f"evaluate_{key}({text!r}) gives {outcome}; it must be unfulfilled with an error message", file=FILE, function=fn.qualname)
         paths = run_paths(model, key, StrT((Opaque("entered_input", truthy=True),)))
         ctx.require(len(paths) >= 4, f"evaluate_{key}: only {len(paths)} paths explored")
+        via = [(f, o, "via the context variable and evaluate_single_format_constraint: ") for f, o in run_paths(model, key, StrT((Opaque("entered_input", truthy=True),)), pipeline=True)]
+        ctx.require(len(via) >= 4, f"evaluate_single_format_constraint({key}): only {len(via)} paths explored")
         fulfilled_paths = 0
-        for facts, outcome in paths:
+        for facts, outcome, how in [(f, o, "") for f, o in paths] + via:
             ctx.count()
             desc = {k: v for k, v in facts.items() if k != "preds"}
             cond = ", ".join(f"{k}={'T' if v else 'F'}" for k, v in facts["preds"].items())
-            pkey = f"{key}:{desc}:{cond}"
+            pkey = f"{key}:{how[:7]}{desc}:{cond}"
+            if outcome[0] == "message-is-not-text":
+                ctx.ob("C20.verdict", pkey, False, f"{how}evaluate_{key} reports the error message {outcome[1]} on the path [{desc} {cond}]: the message must be text", file=FILE, function=fn.qualname)
+                continue
             if outcome[0] == "raise":
-                ctx.ob("C20.raise", pkey, False, f"evaluate_{key} raises {outcome[1]} on the path [{desc} {cond}]: no string input may make the constraint raise",
+                ctx.ob("C20.raise", pkey, False, f"{how}evaluate_{key} raises {outcome[1]} on the path [{desc} {cond}]: no string input may make the constraint raise",
                        file=FILE, function=fn.qualname)
                 continue
             want = expected(key, facts)
